@@ -740,6 +740,52 @@ def exhaustive_bases(rng, tier):
     return bases
 
 
+USERS = ['src/pharmpy/workflows/contexts/local_directory.py', 'src/pharmpy/workflows/model_database/local_directory.py']
+
+
+def lock_mode_table(repo=REPO):
+    """Fail-closed reading of how the two users of path_lock in the anchor files ask for it: every `_read_lock` must return
+    `path_lock(<path>, shared=True)`, every `_write_lock` `path_lock(<path>, shared=False)` (no other keyword: blocking,
+    non-reentrant).  Returns (table, problems, refused)."""
+    import ast
+    table, problems, refused = {}, [], []
+    for rel in USERS:
+        tree = ast.parse((repo / rel).read_text())
+        found = 0
+        for node in ast.walk(tree):
+            if isinstance(node, ast.FunctionDef) and node.name in ('_read_lock', '_write_lock'):
+                found += 1
+                calls = [c for c in ast.walk(node) if isinstance(c, ast.Call) and isinstance(c.func, ast.Name) and c.func.id == 'path_lock']
+                rets = [r for r in ast.walk(node) if isinstance(r, ast.Return)]
+                ok = (len(calls) == 1 and len(rets) == 1 and rets[0].value is calls[0] and len(calls[0].args) == 1
+                      and [k.arg for k in calls[0].keywords] == ['shared'] and isinstance(calls[0].keywords[0].value, ast.Constant)
+                      and isinstance(calls[0].keywords[0].value.value, bool))
+                if not ok:
+                    refused.append(f'{rel}:{node.lineno} {node.name}: unexpected shape')
+                    continue
+                shared = calls[0].keywords[0].value.value
+                table[f'{rel}:{node.name}'] = shared
+                if shared != (node.name == '_read_lock'):
+                    problems.append({'file': rel, 'function': node.name, 'line': node.lineno, 'shared': shared})
+        if found != 2:
+            refused.append(f'{rel}: expected one _read_lock and one _write_lock, found {found}')
+        others = [c for c in ast.walk(tree) if isinstance(c, ast.Call) and isinstance(c.func, ast.Name) and c.func.id == 'path_lock']
+        if len(others) != 2:
+            refused.append(f'{rel}: {len(others)} calls of path_lock (expected 2: the read and the write lock)')
+    return table, problems, refused
+
+
+def check_users(ctx):
+    table, problems, refused = lock_mode_table()
+    ctx.coverage['lock_mode_table'] = table
+    for pr in problems:
+        ctx.violation(f"{pr['file']}:{pr['function']} asks path_lock for shared={pr['shared']}: "
+                      + ('readers exclude each other' if pr['shared'] is False else 'writers do not exclude anybody'),
+                      {'static': True, 'problem': pr})
+    for r in refused:
+        ctx.broken.append('TRANSLATOR-REFUSED lock_mode_table: ' + r)
+
+
 def run(ctx):
     from harness.lib.core import JOBS
     ctx.build_gate(['C15'])
@@ -753,8 +799,10 @@ def run(ctx):
         'fcntl.lockf (fork) on schedule-independent scenarios (coverage.primitive_conformance / kernel_conformance)',
     ]
     ctx.assumptions += [
-        'atomic-section granularity: code between two blocking primitives of lock.py runs without interleaving; '
-        'sound because every shared variable is accessed only while the corresponding lock is held and release is not a blocking point',
+        'atomic-section granularity: a thread is scheduled at every blocking primitive (acquire, wait, lockf) AND right after it '
+        'releases the last lock it holds; the code that follows such a release (outside every critical section) must leave all '
+        'shared state unchanged -- checked at every such "stutter" step against the unchanged model state, so a change that '
+        'moves shared-state access out of a critical section is detected; the exhaustive enumeration takes stutter steps eagerly',
         'processes are simulated by separate module instances of lock.py sharing one virtual kernel table (no real fork / real fcntl)',
         'not covered: the OS scheduler and the kernel fcntl implementation themselves (incl. EDEADLK detection), fairness/starvation, '
         'the Windows msvcrt branch, more than one path per thread (lock-ordering deadlocks are the caller\'s duty per the module docstring)',
@@ -765,7 +813,7 @@ def run(ctx):
         'one path per model instance: pool mutexes are never held across a blocking point, so requests on different paths interact '
         'only through them; not exercised by the tie',
     ]
-    ctx.coverage['source_sha'] = source_sha(vs.LOCK_PY)
+    ctx.coverage['source_sha'] = source_sha(vs.LOCK_PY, *USERS)
     jobs = max(1, min(JOBS, 8))
     # the virtual primitives and the virtual kernel are compared with the real ones of this interpreter / OS
     pd, preal = vs.primitive_conformance()
@@ -774,6 +822,7 @@ def run(ctx):
     ctx.coverage['kernel_conformance'] = {'differences': kd, 'real_fcntl': kreal}
     if pd or kd:
         ctx.broken.append('virtual primitives / virtual kernel differ from threading / fcntl: ' + json.dumps((pd or kd)[0])[:600])
+    check_users(ctx)
     finding_probes(ctx)
     quick = ctx.tier == 'quick'
     reg = sorted((VERIF / 'regress' / 'C15').glob('*.json'))
@@ -838,6 +887,11 @@ def run(ctx):
 
 
 def replay(ctx, rep):
+    if rep.get('static'):
+        table, problems, refused = lock_mode_table()
+        print('lock modes requested by the users of path_lock:', json.dumps(table, indent=1))
+        print('problems', problems, 'refused', refused)
+        return 1 if problems or refused else 0
     spec = rep.get('spec', rep)
     verdicts, obss, _ = run_specs(ctx, [spec], 'replay', quiet=True)
     tags = verdicts[0]
